@@ -5,12 +5,14 @@ import (
 	"fmt"
 	"io"
 	"strings"
+	"time"
 
 	"nhooyr.io/websocket"
 	"verif/engine/explore"
 	"verif/engine/vctx"
 	"verif/engine/vpipe"
 	"verif/engine/vs"
+	"verif/engine/vtime"
 	"verif/fw"
 	"verif/refws/deflate"
 	"verif/refws/frame"
@@ -34,6 +36,12 @@ type c05Params struct {
 	Pinger  bool    // a Ping task plus a reader task and a peer answering it
 	Closer  string  // "", "Close", "CloseNow", "cancel0"/"cancel1" (cancel that writer's context)
 	Window  int     // transport window (0 unbounded)
+	// DrainAt > 0: the peer reads nothing until that virtual time and everything
+	// afterwards (instead of draining whenever the window is full).
+	DrainAt time.Duration
+	// GiveUp: once the first bytes are on the wire, a Ping whose context is
+	// cancelled at 500 ms waits for the frame lock (and gives up).
+	GiveUp bool
 }
 
 type wres struct {
@@ -130,7 +138,50 @@ func c05Setup(prm c05Params) func(c *fw.Ctx, name string) explore.Setup {
 						}
 					})
 				}
-				if prm.Window > 0 {
+				if prm.GiveUp {
+					conn.CloseRead(bg) // reads the pongs
+					w.GoHarness("giveup", true, func() {
+						st.p.WaitOut("first-bytes", func(out []byte) bool { return len(out) > 0 })
+						ctx, cancel := vctx.WithCancel(bg)
+						w.GoHarness("giveup-canceller", false, func() {
+							vtime.Sleep(500 * time.Millisecond)
+							cancel()
+						})
+						conn.Ping(ctx)
+						// the third party: a control frame with a healthy context, while
+						// the first writer's frame is still stuck
+						st.pingErr = conn.Ping(bg)
+						st.pingDone = true
+					})
+					w.GoHarness("pong-peer", false, func() {
+						for i := 0; i < 2; i++ {
+							var pl []byte
+							if !st.p.WaitOut(fmt.Sprintf("conn-ping%d", i), func(out []byte) bool {
+								fs, _ := frame.ParseAll(out)
+								n := 0
+								for _, f := range fs {
+									if f.Opcode == frame.OpPing {
+										if n == i {
+											pl = f.Payload
+											return true
+										}
+										n++
+									}
+								}
+								return false
+							}) {
+								return
+							}
+							st.p.Send(frame.Ctl(frame.OpPong, !prm.K.Client, pl).Encode(nil))
+						}
+					})
+				}
+				if prm.Window > 0 && prm.DrainAt > 0 {
+					w.GoHarness("drainer", false, func() {
+						vtime.Sleep(prm.DrainAt)
+						st.p.SetWindow(0)
+					})
+				} else if prm.Window > 0 {
 					w.GoHarness("drainer", false, func() {
 						for i := 0; i < 40; i++ {
 							// wait until the window is full, then open it again
@@ -154,18 +205,26 @@ func c05Setup(prm c05Params) func(c *fw.Ctx, name string) explore.Setup {
 					w.GoHarness("peer", false, func() {
 						// the peer sends its own Ping first, then answers the connection's Ping
 						st.p.Send(frame.Ctl(frame.OpPing, !prm.K.Client, []byte("peer-ping")).Encode(nil))
-						var pl []byte
-						ok := st.p.WaitOut("conn-ping", func(out []byte) bool {
-							fs, _ := frame.ParseAll(out)
-							for _, f := range fs {
-								if f.Opcode == frame.OpPing {
-									pl = f.Payload
-									return true
+						// answer every Ping of the connection, in order
+						for i := 0; i < 3; i++ {
+							var pl []byte
+							ok := st.p.WaitOut(fmt.Sprintf("conn-ping%d", i), func(out []byte) bool {
+								fs, _ := frame.ParseAll(out)
+								n := 0
+								for _, f := range fs {
+									if f.Opcode == frame.OpPing {
+										if n == i {
+											pl = f.Payload
+											return true
+										}
+										n++
+									}
 								}
+								return false
+							})
+							if !ok {
+								return
 							}
-							return false
-						})
-						if ok {
 							st.p.Send(frame.Ctl(frame.OpPong, !prm.K.Client, pl).Encode(nil))
 						}
 					})
@@ -283,15 +342,17 @@ func c05Oracle(c *fw.Ctx, w *vs.World, name string, prm c05Params, st *c05State)
 		}
 		out += fmt.Sprintf("e%d.%d=%v ", wm.task, wm.idx, wm.err != nil)
 	}
-	// without a closer or cancellation every write must succeed
-	if prm.Closer == "" {
+	// without a closer or cancellation every write must succeed (a Ping that gives
+	// up may have been inside its own frame write when its context ended, which
+	// closes the connection as documented)
+	if prm.Closer == "" && !(prm.GiveUp && st.p.Closed) {
 		for _, wm := range st.msgs {
 			if wm.err != nil {
 				violate(c, w, name, pp+"/write-failed-without-close/"+prm.Name+"/"+role, fmt.Sprintf("writer %d message %d failed: %v", wm.task, wm.idx, wm.err))
 				return
 			}
 		}
-		if prm.Pinger && st.pingErr != nil {
+		if (prm.Pinger || prm.GiveUp) && st.pingErr != nil {
 			violate(c, w, name, pp+"/ping-failed-without-close/"+prm.Name+"/"+role, fmt.Sprintf("ping failed: %v", st.pingErr))
 			return
 		}
@@ -472,6 +533,9 @@ func c05Scenarios(tier string) []scenario {
 		// WB: as W2 but the transport accepts 1500 bytes at a time and blocks until the peer drains
 		add(c05Params{Name: "WB", K: k, Window: 1500, Writers: [][]wop{{{Chunks: []int{10}}}, {{Text: true, Chunks: []int{big}}}}}, P(1), P(2))
 		// WS: Write against a streaming Writer with two chunks
+		// the first writer's frame is stuck half way in the transport until 1 s; a Ping gives
+		// up waiting for the frame lock at 500 ms; the second writer's frame must still wait
+		add(c05Params{Name: "WG", K: k, Window: 60, DrainAt: time.Second, GiveUp: true, Writers: [][]wop{{{Chunks: []int{100}}}}}, P(1), P(2))
 		add(c05Params{Name: "WS", K: k, Writers: [][]wop{{{Chunks: []int{10}}}, {{Stream: true, Text: true, Chunks: []int{5, 5}}}}}, P(2), P(-1))
 		// W3: three writers, the first sends two messages (per-writer order)
 		add(c05Params{Name: "W3", K: k, Writers: [][]wop{{{Chunks: []int{10}}, {Chunks: []int{11}}}, {{Text: true, Chunks: []int{12}}}, {{Stream: true, Chunks: []int{6, 7}}}}}, P(1), P(2))
